@@ -1,0 +1,56 @@
+//go:build verif
+
+package adapter
+
+import (
+	"time"
+
+	"github.com/karagenc/socket.io-go/internal/verifhook"
+	"github.com/karagenc/socket.io-go/parser"
+)
+
+// VerifSetYieldHandler installs fn at the yield points of the verif build (internal/verifhook
+// cannot be imported from outside this module). The clean-up goroutine of the session-aware
+// adapter calls it with "session-cleaner" at the top of every pass.
+func VerifSetYieldHandler(fn func(point string)) { verifhook.SetHandler(fn) }
+
+// NewSessionAwareAdapterCreatorVerif is NewSessionAwareAdapterCreator with the clean-up
+// period exposed (production hard-codes one minute). A period of 0 disables the cleaner.
+func NewSessionAwareAdapterCreatorVerif(maxDisconnectionDuration, cleanerDuration time.Duration) Creator {
+	creator := NewInMemoryAdapterCreator()
+	return func(socketStore SocketStore, parserCreator parser.Creator) Adapter {
+		inMemoryAdapter := creator(socketStore, parserCreator).(*inMemoryAdapter)
+		return newSessionAwareAdapter(inMemoryAdapter, maxDisconnectionDuration, cleanerDuration)
+	}
+}
+
+// VerifLoggedPacket is a read-only view of one entry of the packet log.
+type VerifLoggedPacket struct {
+	ID        string
+	EmittedAt time.Time
+	Rooms     []Room
+	Except    []Room
+}
+
+// VerifSessionLog returns a snapshot of the packet log (in log order) and of the private
+// ids of the persisted sessions of a session-aware adapter; ok is false for other adapters.
+func VerifSessionLog(a Adapter) (log []VerifLoggedPacket, pids []PrivateSessionID, ok bool) {
+	s, ok := a.(*sessionAwareAdapter)
+	if !ok {
+		return nil, nil, false
+	}
+	s.mu.Lock()
+	defer s.mu.Unlock()
+	for _, p := range s.packets {
+		log = append(log, VerifLoggedPacket{
+			ID:        p.ID,
+			EmittedAt: p.EmittedAt,
+			Rooms:     p.Opts.Rooms.ToSlice(),
+			Except:    p.Opts.Except.ToSlice(),
+		})
+	}
+	for pid := range s.sessions {
+		pids = append(pids, pid)
+	}
+	return log, pids, true
+}
